@@ -16,13 +16,15 @@ EXHAUSTIVE_OVER = 'all orders of every generated section set with <= 4 sections 
 ASSUMPTIONS = ['invalid retention strings are not generated (the daemon exits on them at load time)',
                '% is not generated in patterns (ConfigParser interpolation)']
 
-PATS = ['^carbon\\.', '^servers\\.', '\\.count$', 'cpu', '.*', '^a\\.', 'web[0-9]+', '^$', 'x|y', '^stats', 'mem', '\\.']
+PATS = ['^carbon\\.', '^servers\\.', '\\.count$', 'cpu', '.*', '^a\\.', 'web[0-9]+', '^$', 'x|y', '^stats', 'mem', '\\.',
+        # patterns for tagged series and values containing the characters INI dialects use for comments
+        ';env=prod(;|$)', ';type=counter', '^app\\..*;dc=', 'x ;y', 'a #b', '#hash', '[;#]', 'cpu ; not a comment']
 RETS = ['60:1440', '10s:6h', '1m:7d', '10s:6h,1m:7d,10m:5y', '1:10', '60s:90d', '1h:2w', '15m:1y', '5m:12h,1h:1w', '30:2d', '7s:3m', '2d:10y', '1w:4w',
         # every suffix on either side of the colon, bare numbers on either side
         '10s:3600s', '5:600s', '1m:86400s', '1s:30s', '2m:7200s,1h:52w', '1s:1m', '1:1m', '60:3600s', '1d:1y', '1w:1y', '1y:10y', '3:7', '90:2h',
         ' 10s:1d , 1m:30d ', '1h:1d']
 NAMES = ['carbon.agents.h.cpuUsage', 'servers.web1.cpu.user', 'a.b.count', 'stats.x', 'nomatch', 'servers.db.mem', 'x', 'web22.count',
-         'a.cpu.mem.count', 'y.z', 'plain']
+         'a.cpu.mem.count', 'y.z', 'plain', 'app.web.hits;env=prod', 'app.web.hits;dc=a;env=prod', 'q;type=counter', 'x#hash', 'cpu;env=stage']
 METHODS = ['average', 'sum', 'last', 'max', 'min']
 
 
